@@ -148,7 +148,7 @@ def run(ctx):
         hist["profile"][c["profile"]] = hist["profile"].get(c["profile"], 0) + 1
         st = o["status"]
         if st == "driver_error":
-            raise RuntimeError("c20_impl driver error: " + o["exc"])
+            raise RuntimeError("c20_impl driver error: " + o["exc"] + " CASE " + json.dumps(c))
         should_reject = any(m["kind"] != "expval" and m.get("obs") is not None and len([1 for v in ast_lin(m["obs"]).values() if v != 0]) > 1 for m in c["ms"])
         if st == "post_raise":
             ctx.violation("fake-post-raise:" + ckey, {"case": c, "observed": o}, what="post-processing function raised on the results of its own tapes")
